@@ -121,6 +121,12 @@ def handle (st : St) : Toks → IO St
   | "scat" :: ts => answer st ts do
       let d ← pF; let w ← pF; let ats ← pAtoms
       pure (showOutcome (neutronScattering st.tbl ats d w))
+  | "scats" :: d :: w :: rest =>
+    -- nested structure: `Items.atoms` (C02's model of `Formula.atoms`) then the calculation
+    match readF d, readF w, readItems rest with
+    | some d, some w, some (s, []) => do
+      reply (showOutcome (neutronScattering st.tbl s.atoms d w)); pure st
+    | _, _, _ => do reply "ERR bad-op"; pure st
   | "scate" :: ts => answer st ts do
       let d ← pF; let e ← pF; let ats ← pAtoms
       pure (showOutcome (neutronScatteringE st.tbl ats d e))
